@@ -143,15 +143,20 @@ def rule_interface(ctx: Ctx) -> None:  # noqa: C901
     ctx.tri("3-interface", gs, gs.node, bool(rj) and "storage_registry" in norm(gs.node), not rj, "unknown ids raise, known ids return the registered class", "get_storage_class never raises for an unknown id", key="lookup")
 
 
-def _templates(fn: FuncInfo) -> set[str]:
-    return {norm(a) for a in ast.walk(fn.node) if (isinstance(a, ast.Attribute) and "template" in a.attr.lower()) or (isinstance(a, ast.Name) and "template" in a.id.lower())}
+def _templates(ctx: Ctx, fn: FuncInfo) -> set[str]:
+    """What the file names are formatted from: the (resolved) receivers of `.format(...)` in `fn` and the methods it calls."""
+    out = set()
+    for f in Scope(ctx, fn, wide=True).funcs:
+        d = Defs(f)
+        out |= {norm(d.resolve(c.func.value)) for c in ast.walk(f.node) if isinstance(c, ast.Call) and isinstance(c.func, ast.Attribute) and c.func.attr == "format"}
+    return out
 
 
 def rule_row_major(ctx: Ctx) -> None:
     P = ctx.prog
     fa = P.cls(f"{SA}._file.FileArray")
     ml, itf, ktf = fa.methods["mask_linear"], fa.methods["_index_to_file"], fa.methods["_key_to_file"]
-    t_ml, t_itf = _templates(ml), _templates(itf)
+    t_ml, t_itf = _templates(ctx, ml), _templates(ctx, itf)
     ctx.tri("4-row-major", ml, ml.node, bool(t_ml) and t_ml == t_itf, bool(t_ml) and bool(t_itf) and t_ml != t_itf, "mask_linear enumerates the files with the template that names them",
             f"mask_linear looks for files named by {sorted(t_ml)} but elements are written under {sorted(t_itf)}: existing elements are reported missing", "file-name templates not recognised", key="mask-linear")
     its = [it for it in iterations(ml.node) if "range(" in norm(it["iter"])]
